@@ -12,6 +12,12 @@ from ..lib import V
 PROPERTY = 'C05'
 CHUNK = 1
 MON = ('wf',)
+
+
+def CASE_BUDGET(tier):
+    # one case is a whole subtree (up to ~1e5 transitions at depth 3); the watchdog budget has to cover it on a busy box
+    return 600 if tier == 'quick' else 5400
+
 PREFIX = 'wf.'
 RULE = ('one case = the subtree below one first transition of one initial pool, searched depth-first to the depth bound; states = '
         'distinct canonical state keys (structure, dtype, grad flag, contiguity, alias classes of all live objects); transitions = '
